@@ -628,7 +628,7 @@ func c06Grow(c *Ctx, r *bufRoles) {
 	for _, in := range findU(g, func(in ssa.Instruction) bool { return r.isRingWrite(in) }) {
 		o.Fail(in.Pos(), "growth writes into the old ring")
 	}
-	paths, ok := enumPathsB(g, 300)
+	paths, ok := enumPathsU(g, 3000)
 	if !ok {
 		o.Undecide("growth helper has a loop or too many paths")
 		return
@@ -640,16 +640,19 @@ func c06Grow(c *Ctx, r *bufRoles) {
 		}
 		return defaultSym(v)
 	}
-	for _, pt := range paths {
-		last := pt.Blocks[len(pt.Blocks)-1]
-		ret, _ := last.Instrs[len(last.Instrs)-1].(*ssa.Return)
-		if ret == nil {
+	for pi := range paths {
+		pt := &paths[pi]
+		ret, _ := pt.last().(*ssa.Return)
+		if ret == nil || ret.Parent() != g {
 			continue
 		}
-		pr := pathPhi(pt)
-		if isErrorReturn(ret) {
+		refused := false
+		if e := errorOperand(ret); e != nil && !isNilConst(pt.value(e)) {
+			refused = true
+		}
+		if refused {
 			// no store on refusal
-			for _, in := range pt.instrs() {
+			for _, in := range pt.Instrs {
 				if _, ok := in.(*ssa.Store); ok && (r.isStoreTo(in, r.head) || r.isStoreTo(in, r.tail) || r.isStoreTo(in, r.data)) {
 					o.Fail(in.Pos(), "growth modifies the buffer on a path that ends in a refusal")
 				}
@@ -659,15 +662,15 @@ func c06Grow(c *Ctx, r *bufRoles) {
 		nSucc++
 		var headV, tailV, dataV ssa.Value
 		nCopies := linConst(0)
-		for _, in := range pt.instrs() {
+		for _, in := range pt.Instrs {
 			if st, ok := in.(*ssa.Store); ok {
 				switch {
 				case r.isStoreTo(in, r.head):
-					headV = st.Val
+					headV = pt.value(st.Val)
 				case r.isStoreTo(in, r.tail):
-					tailV = st.Val
+					tailV = pt.value(st.Val)
 				case r.isStoreTo(in, r.data):
-					dataV = st.Val
+					dataV = pt.value(st.Val)
 				}
 			}
 			if call, ok := in.(*ssa.Call); ok && isCall(call, "builtin.copy") {
@@ -681,21 +684,18 @@ func c06Grow(c *Ctx, r *bufRoles) {
 		if k, ok := constInt(headV); !ok || k != 0 {
 			o.Fail(ret.Pos(), "after growth head is not 0 although the data was linearised from offset 0")
 		}
-		if !linOfP(tailV, sym, pr).eq(nCopies) {
-			o.Fail(ret.Pos(), "after growth tail (%s) is not the number of bytes copied (%s)", linOfP(tailV, sym, pr), nCopies)
+		if got := pathLin(pt, tailV, sym); !got.eq(nCopies) {
+			o.Fail(ret.Pos(), "after growth tail (%s) is not the number of bytes copied (%s)", got, nCopies)
 		}
 		if !sameOrigin(dataV, ssa.Value(mk)) {
 			o.Fail(ret.Pos(), "after growth data is not the new array")
 		}
 		// strictly larger: the path must carry the literal newSize > len(data)
 		okGrow := false
-		for _, l := range pathLits(pt, nil) {
-			_ = l
-		}
 		for _, cnd := range pt.Conds {
 			cm, ok2 := normCmp(cnd.Cond, cnd.Val)
-			if ok2 && cm.Op == token.LSS && isLenOf(cm.X, func(v ssa.Value) bool { return r.isLoad(v, r.data) }) {
-				if resolvePhi(cm.Y, pr) == resolvePhi(mk.Len, pr) || cm.Y == mk.Len {
+			if ok2 && cm.Op == token.LSS && isLenOf(pt.value(cm.X), func(v ssa.Value) bool { return r.isLoad(pt.value(v), r.data) }) {
+				if pt.value(cm.Y) == pt.value(mk.Len) || sameOrigin(cm.Y, mk.Len) {
 					okGrow = true
 				}
 			}
@@ -707,6 +707,16 @@ func c06Grow(c *Ctx, r *bufRoles) {
 	if nSucc < 2 {
 		o.Undecide("expected a contiguous and a wrapped growth path, found %d successful paths", nSucc)
 	}
+}
+
+// pathLin: the linear form of v along a path (phis by the edge taken, helper parameters and results bound).
+func pathLin(pt *upath, v ssa.Value, sym symNamer) linForm {
+	return linOfX(v, sym, pt.phi, func(x ssa.Value) (linForm, bool) {
+		if r := pt.resolve(x); r != x {
+			return pathLin(pt, r, sym), true
+		}
+		return linForm{}, false
+	})
 }
 
 func resolvePhi(v ssa.Value, pr func(*ssa.Phi) ssa.Value) ssa.Value {
@@ -734,17 +744,26 @@ func c0607Available(c *Ctx, r *bufRoles) {
 		recv, sz := a.Params[0].Name(), a.Params[1].Name()
 		A := linSym(recv+"."+r.head).add(linSym(recv+"."+r.tail), -1)
 		L := linSym("len(" + recv + "." + r.data + ")")
-		paths, ok := enumPathsB(a, 50)
+		// paths of the helper with the occupancy helper (and any private helper) inlined
+		savedEx := unitExclude
+		ex2 := map[*ssa.Function]bool{}
+		for k, v := range savedEx {
+			if k != r.sizeFn {
+				ex2[k] = v
+			}
+		}
+		unitExclude = ex2
+		paths, ok := enumPathsU(a, 400)
 		if !ok {
 			o.Undecide("free-space helper has a loop")
 		}
 		for _, pt := range paths {
-			last := pt.Blocks[len(pt.Blocks)-1]
-			ret, _ := last.Instrs[len(last.Instrs)-1].(*ssa.Return)
-			if ret == nil {
+			ret, _ := pt.Instrs[len(pt.Instrs)-1].(*ssa.Return)
+			if ret == nil || ret.Parent() != a {
 				continue
 			}
-			lits := pathLits(pt, nil)
+			pf := evalPath(pt)
+			lits := pf.lits
 			var Ap linForm
 			switch {
 			case hasIneq(lits, A): // A > 0
@@ -752,18 +771,30 @@ func c0607Available(c *Ctx, r *bufRoles) {
 			case hasIneq(lits, A.scale(-1).add(linConst(1), 1)): // A <= 0
 				Ap = A.add(L, 1)
 			default:
+				// the result may not depend on the distinction at all only if it is computed from a value that does
 				o.Fail(ret.Pos(), "path does not distinguish head-tail > 0 from <= 0")
 				continue
 			}
-			val := ret.Results[0]
+			ptc := pt
+			val := ptc.value(ret.Results[0])
 			cst, isC := val.(*ssa.Const)
 			if !isC {
 				// "return <comparison>": the packet fits iff the comparison holds
-				at, pol, okc := atomOfP(val, true, nil, pathPhi(pt))
 				want := Ap.add(linSym(sz), -1).add(linConst(-2), 1) // A'-s-2 > 0
-				o.Site(ret.Pos(), "returns the comparison %s", at)
-				if !okc || !pol || at.Eq || !at.Form.eq(want) {
-					o.Fail(ret.Pos(), "free-space test is not 'size+2+1 <= available': the helper returns [%s] but fitting requires [%s > 0] (the byte that keeps head==tail unambiguous is lost or the threshold moved)", at, want)
+				var got linForm
+				okc := false
+				if cm, ok := normCmp(val, true); ok {
+					x, y := pf.w.lin(cm.X), pf.w.lin(cm.Y)
+					switch cm.Op {
+					case token.LSS:
+						got, okc = y.add(x, -1), true
+					case token.LEQ:
+						got, okc = y.add(x, -1).add(linConst(1), 1), true
+					}
+				}
+				o.Site(ret.Pos(), "returns the comparison %s > 0", got)
+				if !okc || !got.eq(want) {
+					o.Fail(ret.Pos(), "free-space test is not 'size+2+1 <= available': the helper returns [%s > 0] but fitting requires [%s > 0] (the byte that keeps head==tail unambiguous is lost or the threshold moved)", got, want)
 				}
 				continue
 			}
@@ -781,6 +812,7 @@ func c0607Available(c *Ctx, r *bufRoles) {
 				o.Fail(ret.Pos(), "free-space test is not 'size+2+1 <= available': on the path returning %v the literal %s > 0 is required but the path has %s", fits, need, strings.Join(strs, " & "))
 			}
 		}
+		unitExclude = savedEx
 	}
 	o = c.Obl("R8s", "packetio.Buffer.size", "occupancy helper returns tail-head, plus len(data) exactly when that is negative", 2)
 	s := r.sizeFn
@@ -1009,7 +1041,8 @@ func c07GrowCap(c *Ctx, r *bufRoles) {
 	}
 	recv := g.Params[0].Name()
 	seenLimit, seenMax := false, false
-	instrsOf(g, func(in ssa.Instruction) {
+	var clampIfs []*ssa.If
+	instrsOfU(g, func(in ssa.Instruction) {
 		iff, ok := in.(*ssa.If)
 		if !ok {
 			return
@@ -1018,7 +1051,7 @@ func c07GrowCap(c *Ctx, r *bufRoles) {
 		if !ok {
 			return
 		}
-		lx, ly := linOf(cm.X, nil), linOf(cm.Y, nil)
+		lx := linOf(cm.X, nil)
 		want := linSym(recv+"."+r.limitSize).add(linConst(1), 1)
 		if cm.Op == token.LSS && lx.eq(want) { // limitSize+1 < newSize
 			seenLimit = true
@@ -1027,24 +1060,15 @@ func c07GrowCap(c *Ctx, r *bufRoles) {
 		if cm.Op == token.LSS && lx.OK && len(lx.Coef) == 0 && lx.K == 4*1024*1024 {
 			seenMax = true
 			o.Site(in.Pos(), "cap at 4 MiB")
+			clampIfs = append(clampIfs, iff)
 		}
-		_ = ly
 	})
 	// the 4 MiB clamp applies only when no size limit is set (or the hard-limit build tag makes the condition constant)
-	var clampIf *ssa.If
-	instrsOf(g, func(in ssa.Instruction) {
-		if iff, ok := in.(*ssa.If); ok {
-			if cm, ok := normCmp(iff.Cond, true); ok && cm.Op == token.LSS {
-				if k, ok := constInt(cm.X); ok && k == 4*1024*1024 {
-					clampIf = iff
-				}
-			}
-		}
-	})
-	if clampIf != nil {
+	for _, clampIf := range clampIfs {
+		fn := clampIf.Parent()
 		var cut []cfgEdge
 		noLimit := atom{Form: linSym(recv+"."+r.limitSize).scale(-1).add(linConst(1), 1)} // limitSize <= 0
-		for _, b := range g.Blocks {
+		for _, b := range fn.Blocks {
 			iff, ok := b.Instrs[len(b.Instrs)-1].(*ssa.If)
 			if !ok {
 				continue
@@ -1062,7 +1086,7 @@ func c07GrowCap(c *Ctx, r *bufRoles) {
 			}
 		}
 		o.Site(clampIf.Pos(), "4 MiB clamp guarded by %d 'no size limit' / constant edge(s)", len(cut))
-		if len(cut) == 0 || !unreachableWithout(g, clampIf, cut) {
+		if len(cut) == 0 || !unreachableWithout(fn, clampIf, cut) {
 			o.Fail(clampIf.Pos(), "the 4 MiB clamp can apply although a size limit is set (it must be guarded by limitSize <= 0, or by the hard-limit build constant): with a limit near 4 MiB the ring cannot hold limitSize bytes plus the slack byte")
 		}
 	}
